@@ -10,12 +10,12 @@ structure Checked (m : NLModel) (o : ConvOut) : Prop where
   n0N : o.n0 ≤ o.N
   resN : ∀ d ∈ o.defs, d.res < o.N
   defd : ∀ v, o.n0 ≤ v → v < o.N → ∃ d ∈ o.defs, d.res = v
-  b0 : ∀ v, v < o.n0 → o.B v = m.B0 v
-  typed : ∀ d ∈ o.defs, typedDef o.B d = true
+  b0 : ∀ v, v < o.n0 → o.B0 v = m.B0 v
+  typed : ∀ d ∈ o.defs, typedDef o.B0 d = true
   rootsN : ∀ r ∈ o.roots, ∀ p ∈ r.body, p.2 < o.N
   rootsFin : ∀ r ∈ o.roots, (∀ l, r.lb = some l → -pracInf < l) ∧ (∀ u, r.ub = some u → u < pracInf)
-  cov : CtxCovers o.B o.defs o.roots
-  objOK : ∀ ob, o.obj = some ob → (∀ v ∈ ob.vars, v < o.N) ∧ ob.quad = [] ∧ ObjCovers o.B o.defs ob
+  cov : CtxCovers o.B0 o.defs o.roots
+  objOK : ∀ ob, o.obj = some ob → (∀ v ∈ ob.vars, v < o.N) ∧ ob.quad = [] ∧ ObjCovers o.B0 o.defs ob
 
 theorem checks_sound (m : NLModel) (o : ConvOut) (h : o.checks m = true) : Checked m o := by
   simp only [ConvOut.checks, Bool.and_eq_true, List.all_eq_true, decide_eq_true_eq, List.isEmpty_iff] at h
